@@ -7,6 +7,7 @@ import (
 	"github.com/pion/turn/v5/verifharness/simnet"
 	"math/rand"
 	"net"
+	"sync"
 	"testing"
 	"time"
 
@@ -198,7 +199,7 @@ func init() {
 			}
 			inBubble(t, func(t *testing.T) {
 				if caseNo%8 == 7 {
-					runC05E2E(t, rng, rec, tier, caseNo)
+					runC05E2E(t, rng, rec, tier, caseNo/8)
 
 					return
 				}
@@ -224,6 +225,25 @@ func runC05E2E(t *testing.T, rng *rand.Rand, rec *sim.Rec, tier string, caseNo i
 	defer w.Shutdown()
 	w.Net.LogSends = false
 	logs := sim.NewLogSink()
+	lostBind := caseNo%2 == 0 && (caseNo/2)%3 == 1
+	if lostBind {
+		// the success response to the client's first ChannelBind is lost: for one retransmission
+		// interval the server uses the channel toward a client that has not seen it confirmed
+		var pmu sync.Mutex
+		dropped := false
+		w.Net.Plan = func(d *simnet.Dgram) simnet.Fate {
+			pmu.Lock()
+			defer pmu.Unlock()
+			if m, err := wire.ParseSTUN(d.Data); err == nil && !dropped && m.Method == wire.MethodChannelBind && m.Class == wire.ClassSuccess {
+				dropped = true
+				rec.Ev("channelbind-response-lost")
+
+				return simnet.Fate{Drop: true}
+			}
+
+			return simnet.Fate{}
+		}
+	}
 	// the client reaches the server over UDP or (every other case) over a TCP control connection,
 	// where every ChannelData message must be padded to a multiple of four on the wire
 	overTCP := caseNo%2 == 1
@@ -316,7 +336,7 @@ func runC05E2E(t *testing.T, rng *rand.Rand, rec *sim.Rec, tier string, caseNo i
 			}
 		}
 		rec.EvN("e2e-datagrams-compared", 2*n)
-		rec.FP("e2e/%s/burst=%d/tcp=%v", phase, min(n/10, 3), overTCP)
+		rec.FP("e2e/%s/burst=%d/tcp=%v/bind-response-lost=%v", phase, min(n/10, 3), overTCP, lostBind)
 	}
 	// a second socket on the peer's host that the client never writes to: its datagrams are
 	// admitted by the host's permission and travel in Data indications, never in ChannelData
@@ -357,7 +377,7 @@ func runC05E2E(t *testing.T, rng *rand.Rand, rec *sim.Rec, tier string, caseNo i
 	time.Sleep(2 * time.Second) // the binding is confirmed by now
 	burst("channel")
 	indications("with-channel-bound")
-	if ctrl != nil && (caseNo/8)%2 == 0 {
+	if ctrl != nil && (caseNo/2)%2 == 0 {
 		// the client's host stops reading its control connection for a few seconds while the peer
 		// keeps sending (the server's writes meet TCP flow control: 4 KiB in flight at most); when it
 		// resumes, whatever is delivered is one of the datagrams sent, whole and correctly attributed
